@@ -20,6 +20,8 @@ import (
 // ROp is one operation of a readiness scenario (first calls from different goroutines).
 //
 //	run     call Run in a new goroutine (the fake issuer holds the request until "ok"/"fail")
+//	runp    same, but Run parks at hook spiffe.run.afterCloseReady (readyCh closed, write lock still
+//	        held) until "rrel"
 //	get     call GetX509SVID in a new goroutine             (consumer index = order of get/getp/ready/readyc)
 //	getp    same, but the goroutine parks at hook spiffe.svid.afterRLock until "rel"
 //	ready   call Ready(ctx) in a new goroutine; readyc: its ctx can be cancelled with "cancel"
@@ -105,7 +107,25 @@ func runReady(sc RScenario, ca *fakeCA, settle, deadline time.Duration) rOutcome
 
 	var parkIdx sync.Map // goid -> consumer index
 	relCh := map[int]chan struct{}{}
+	var runHold chan struct{} // non-nil: Run stops at spiffe.run.afterCloseReady until it is closed
+	runReleased := false
 	verifhook.Set(func(name string, _ ...any) {
+		if name == "spiffe.run.afterCloseReady" {
+			mu.Lock()
+			ch := runHold
+			mu.Unlock()
+			if ch == nil {
+				return
+			}
+			select {
+			case <-ch:
+				return
+			default:
+			}
+			ev("rpark")
+			<-ch
+			return
+		}
 		if name != "spiffe.svid.afterRLock" {
 			return
 		}
@@ -186,9 +206,25 @@ func runReady(sc RScenario, ca *fakeCA, settle, deadline time.Duration) rOutcome
 
 	for _, op := range sc.Ops {
 		switch op.Op {
-		case "run":
+		case "rrel":
+			mu.Lock()
+			ch := runHold
+			mu.Unlock()
+			if ch != nil && !runReleased {
+				runReleased = true
+				ev("rrel")
+				close(ch)
+			}
+		case "run", "runp":
 			runCalled = true
-			ev("cr")
+			if op.Op == "runp" {
+				mu.Lock()
+				runHold = make(chan struct{})
+				mu.Unlock()
+				ev("crp")
+			} else {
+				ev("cr")
+			}
 			go guard("Run", func() {
 				err := s.Run(runCtx)
 				r := "nil"
@@ -341,6 +377,9 @@ func runReady(sc RScenario, ca *fakeCA, settle, deadline time.Duration) rOutcome
 		if !released[i] {
 			close(ch)
 		}
+	}
+	if runHold != nil && !runReleased {
+		close(runHold)
 	}
 	mu.Unlock()
 	for _, c := range cancels {
